@@ -10,7 +10,7 @@ class C04(NcchCheck):
     prop = 'C04'
     full = True
     rule = ('the NCCH images of C03; on one FullDecrypted handle: a whole read, then seek/read histories with offsets '
-            'centred on section and 0x200-chunk boundaries (+-{0,1,2,0x1FF,0x200}), lengths 1..0x650, gaps between '
+            'centred on section and 0x200-chunk boundaries and on the rewritten header bytes 0x188..0x190 (+-{0,1,2,0x1FF,0x200}), lengths 1..0x650, gaps between '
             'sections and the end of the container; metamorphic step: the whole image is fed back to a reader whose '
             'engine has no bootROM keys and every section is compared with the original per-section views; monitor: '
             'slice of the specification image (sections replaced by plaintext, two header bytes rewritten)')
